@@ -766,3 +766,22 @@ Definition sanitize_byte (b : N) : bytes :=
   else if (b =? 8)%N then [60; 98; 97; 99; 107; 115; 112; 97; 99; 101; 62]%N         (* <backspace> *)
   else [b].
 Definition sanitize (l : bytes) : bytes := flat_map sanitize_byte l.
+
+(* ------------------------------------------------------------------ *)
+(* concurrent connections.  Every Handle call has its own connection, buffers and backend
+   connection; the service object shared by all connections holds only the event channel
+   and the director.  A step of the system = one segment arriving on one connection. *)
+Definition conns := nat -> list bytes.     (* what has arrived, per connection *)
+
+Definition arrive (g : conns) (i : nat) (s : bytes) : conns :=
+  fun j => if (j =? i)%nat then g j ++ [s] else g j.
+
+Fixpoint arrive_all (g : conns) (l : list (nat * bytes)) : conns :=
+  match l with
+  | [] => g
+  | (i, s) :: r => arrive_all (arrive g i s) r
+  end.
+
+(* the segments of connection i in an interleaved arrival order *)
+Definition own (i : nat) (l : list (nat * bytes)) : list bytes :=
+  map snd (filter (fun p => (fst p =? i)%nat) l).
